@@ -130,6 +130,8 @@ def _driver(ck: Checker) -> None:
     def empty_read(t, lab):
         if t.kind != "test" or lab != "F":
             return False
+        if any(t.ast is r for r in reads):
+            return True  # `while stream.read(n): ...`
         return flows_from_calls(g, t, t.ast, reads) and isinstance(t.ast, ast.Name)
 
     after = {d for _n, _l, d in exits}
@@ -177,8 +179,11 @@ def _select(ck: Checker) -> None:
         if t.kind == "test" and norm(t.ast) in ("name == 'md5-dos2unix'", "'md5-dos2unix' == name"):
             for i in g2.reach([d for lab, d in t.succ if lab == "T"]):
                 n = g2.nodes[i]
-                if n.kind == "stmt" and isinstance(n.ast, ast.Assign) and norm(n.ast) == "name = 'md5'":
-                    okm = True
+                if n.kind == "stmt" and isinstance(n.ast, ast.Assign) and isinstance(n.ast.value, ast.Constant) and n.ast.value.value == "md5":
+                    # the remapped name is what the hashlib lookup uses
+                    tgt = norm(n.ast.targets[0])
+                    lookups = [x for x in g2.nodes.values() for c in calls_at(x) if (call_name(c) == "getattr" and len(c.args) >= 2 and norm(c.args[1]) == tgt) or (is_method_call(c, "new") and c.args and norm(c.args[0]) == tgt)]
+                    okm = okm or bool(lookups)
     ck.require(okm, "C14.select", gh, gh.node, "md5-dos2unix is hashed with md5", "get_hasher no longer maps 'md5-dos2unix' to md5")
     init = prog.func("hashfile.hash", "HashStreamFile.__init__")
     g3 = ck.cfg(init)
